@@ -415,6 +415,11 @@ func C05ExtraConfigs(thorough bool) []*world.Config {
 	// bodies of exactly 127, 128 and 129 bytes (quoted strings of 125, 126, 127 characters): the boundary of the one-byte length prefix
 	cs = append(cs, world.IntCfg(2, []int{1, 2, 3}, []interface{}{strings.Repeat("x", 125), strings.Repeat("y", 126), strings.Repeat("z", 127)}, "", B, "none"))
 	cs = append(cs, world.IntCfg(4, []int{1, 2, 4, 8}, []interface{}{long, ""}, "", M, "none"))
+	// a marshaler whose output can be empty: string values written raw, the empty string among them
+	raw := world.IntCfg(2, []int{1, 2, 3, 4}, []interface{}{"", "a"}, "", B, "none")
+	raw.RawStrings = true
+	raw.Name = "raw-string-values/" + raw.Name
+	cs = append(cs, raw)
 	cs = append(cs, seededFull(world.UintCfg(256, urange(1, 130), 1, B, "none"), 1))
 	tg := world.UintCfg(2, urange(1, 5), 2, M, "none")
 	tg.Tagged = true
